@@ -683,13 +683,10 @@ def wrappers(index, rep, rule) -> None:
                              None)
                 for _ in range(3):
                     if isinstance(vnode, ast.Name):
-                        binds = [s_ for s_ in f.module.tree.body
-                                 if isinstance(s_, (ast.Assign, ast.AnnAssign)) and any(
-                                     isinstance(t_, ast.Name) and t_.id == vnode.id for t_ in (
-                                         s_.targets if isinstance(s_, ast.Assign)
-                                         else [s_.target]))]
-                        if len(binds) == 1 and binds[0].value is not None:
-                            vnode = binds[0].value
+                        from ..consteval import module_constant
+                        mc = module_constant(f.module, vnode.id)
+                        if mc is not None:
+                            vnode = mc
                             continue
                     break
                 if isinstance(vnode, (ast.Name, ast.Attribute)):
